@@ -94,8 +94,8 @@ def judge(desc, spec):
         elif op[0] == 'inspect' and obs.get('error'):
             out.append(Violation(f'{name}: inspection raised', f'history {hist}: {obs["error"]}', case))
         elif op[0] == 'inspect':
-            if obs['forced'] != exp['forced']:
-                diff = {k: (obs['forced'][k], exp['forced'][k]) for k in obs['forced'] if obs['forced'][k] != exp['forced'][k]}
+            diff = {k: (obs['forced'][k], exp['forced'][k]) for k in obs['forced'] if exp['forced'][k] is not None and obs['forced'][k] != exp['forced'][k]}
+            if diff:
                 out.append(Violation(f'{name}: is_forced differs from the descendant closure', f'history {hist}: (impl, model) {diff}', case))
             if obs['has_data'] != exp['has_data']:
                 diff = {k: (obs['has_data'][k], exp['has_data'][k]) for k in obs['has_data'] if obs['has_data'][k] != exp['has_data'][k]}
@@ -211,6 +211,11 @@ def run(tier, seed):
                          delete_flags=(False, True), cforce_flags=((False, False), (True, False), (False, True)))
         d0, d1 = (3, 4) if tier == 'quick' else (3, 5)
         plan.append((desc, sp, d0, d1))
+    # "exactly once": after the forced recomputation the object may drop its value (reset_data) - the next request is served from storage
+    two = dag_world(2, {(0, 1)})
+    two['name'] = 'reset2'
+    sp = specs.build(two, variants=['v0'], ops=('new', 'value', 'tforce', 'reset', 'inspect'), slots=1, delete_flags=(False,), force_tasks={'v0': ['t0']})
+    plan.append((two, sp, 3, 6))
     memchain = dag_world(3, {(0, 1), (1, 2)})
     memchain['name'] = 'memchain3'
     memchain['tasks']['T1']['data'] = 'inmemory'
